@@ -181,6 +181,15 @@ func vRunCase3(t *testing.T, c vCase) (msg string) {
 	switch c.Kind {
 	case "el-battery":
 		pool := vPool(int64(c.N))
+		// optional: projective scalings (Z values, comma separated) taken from solver models
+		for _, h := range bytes.Split([]byte(c.A), []byte(",")) {
+			if len(h) == 0 {
+				continue
+			}
+			if l := vBig(string(h)); l.Sign() != 0 {
+				pool = append(pool, vNamed{"G*Z(model " + string(h) + ")", vG(), l}, vNamed{"[5]G*Z(model)", vMulPt(big.NewInt(5), vG()), l}, vNamed{"O(0:model:0)", vInf(), l})
+			}
+		}
 		fail := func(s string) string { return c.Op + ": " + s }
 		for _, a := range pool {
 			pa := a.p
